@@ -146,6 +146,8 @@ type histTornCase struct {
 	Pages   []int       `json:"pages"`
 	Recover string      `json:"recover"`
 	Tables  []histTable `json:"tables"`
+	ThenRes []string    `json:"thenRes"`
+	Tables2 []histTable `json:"tables2"`
 }
 
 type histTorn struct {
@@ -614,7 +616,7 @@ func histRunCase(c histCase) ([]histOut, error) {
 				tc := histTornCase{Pages: append([]int{}, sub...)}
 				// recovery of a torn image can die with a fatal error that recover() cannot catch
 				// (unbounded recursion through a page that was never written): run it in a child
-				tc.Recover, tc.Tables = histRecoverIsolated(img, ev.Tables, h.cache)
+				tc.Recover, tc.Tables, tc.ThenRes, tc.Tables2 = histRecoverIsolated(img, ev.Tables, h.cache, ev.Then)
 				o.Torn.Cases = append(o.Torn.Cases, tc)
 				os.RemoveAll(img)
 			}
@@ -634,44 +636,47 @@ type histRecoverReq struct {
 	Dir    string   `json:"dir"`
 	Tables []string `json:"tables"`
 	Cache  int      `json:"cache"`
+	Then   []string `json:"then"`
 }
 
 type histRecoverResp struct {
 	Recover string      `json:"recover"`
 	Tables  []histTable `json:"tables"`
+	ThenRes []string    `json:"thenRes"`
+	Tables2 []histTable `json:"tables2"`
 }
 
 // histRecoverIsolated re-executes this test binary in mode "recoverimg" on one image directory
-func histRecoverIsolated(img string, tables []string, cache int) (string, []histTable) {
+func histRecoverIsolated(img string, tables []string, cache int, then []string) (string, []histTable, []string, []histTable) {
 	in := filepath.Join(img, "req.json")
 	out := filepath.Join(img, "resp.json")
-	b, _ := json.Marshal(histRecoverReq{Dir: img, Tables: tables, Cache: cache})
+	b, _ := json.Marshal(histRecoverReq{Dir: img, Tables: tables, Cache: cache, Then: then})
 	if err := os.WriteFile(in, append(b, '\n'), 0644); err != nil {
-		return "harness:" + err.Error(), nil
+		return "harness:" + err.Error(), nil, nil, nil
 	}
 	cmd := exec.Command(os.Args[0], "-test.run", "^TestVerifDriver$", "-test.timeout", "30s")
 	cmd.Env = append(os.Environ(), "VERIF_MODE=recoverimg", "VERIF_IN="+in, "VERIF_OUT="+out)
 	cmd.Dir = img
 	done := make(chan error, 1)
 	if err := cmd.Start(); err != nil {
-		return "harness:" + err.Error(), nil
+		return "harness:" + err.Error(), nil, nil, nil
 	}
 	go func() { done <- cmd.Wait() }()
 	select {
 	case <-done:
 	case <-time.After(40 * time.Second):
 		cmd.Process.Kill()
-		return "timeout", nil
+		return "timeout", nil, nil, nil
 	}
 	rb, err := os.ReadFile(out)
 	if err != nil || len(rb) == 0 {
-		return "panic:process died during recovery (fatal error)", nil
+		return "panic:process died during recovery (fatal error)", nil, nil, nil
 	}
 	var resp histRecoverResp
 	if err := json.Unmarshal(rb, &resp); err != nil {
-		return "panic:process died during recovery (fatal error)", nil
+		return "panic:process died during recovery (fatal error)", nil, nil, nil
 	}
-	return resp.Recover, resp.Tables
+	return resp.Recover, resp.Tables, resp.ThenRes, resp.Tables2
 }
 
 func init() {
@@ -690,6 +695,18 @@ func init() {
 					resp.Recover = "open:" + err.Error()
 				} else {
 					resp.Tables = histReadTables(rs2, req.Tables)
+					s2 := &Session{CurDB: histDB, RelationService: rs2}
+					for _, q := range req.Then {
+						q := q
+						resp.ThenRes = append(resp.ThenRes, histGuard(func() error {
+							var err error
+							histQuiet(func() { err = s2.ExecQuery(q) })
+							return err
+						}))
+					}
+					if len(req.Then) > 0 {
+						resp.Tables2 = histReadTables(rs2, req.Tables)
+					}
 					rs2.VerifAbandon()
 				}
 			}
